@@ -2,7 +2,8 @@
 (* C17 - the input space of GeoJson.tla: abstract OSM data sets.            *)
 (* Structured exhaustive families (one per mechanism of the statement) plus *)
 (* a seeded random sample of the full product space (<= 3 nodes, <= 2 ways  *)
-(* over present / missing / annotated node refs, <= 2 relations).           *)
+(* over present / missing / annotated node refs, <= 2 relations), and a     *)
+(* family of real-size routes (up to 30 sections, 90 nodes, 60 ways).       *)
 (* Kept in its own module because TLC evaluates constant definitions        *)
 (* eagerly: the Judge module must not pay for enumerating the space.        *)
 EXTENDS GeoJson, Randomization
@@ -20,11 +21,14 @@ MPart == [ZeroMeta EXCEPT !.changeset = 7, !.user = 8]
 MetaMenu == {M0, MFull, MVer, MTime, MPart}
 
 TNone == << >>
+\* incl. an interesting key with an EMPTY value (still a tag), alone and next to an uninteresting tag
 NodeTagMenu == {TNone, << <<"source", "survey">> >>, << <<"created_by", "JOSM">>, <<"source:ref", "x">> >>,
-                << <<"amenity", "cafe">> >>, << <<"source", "s">>, <<"name", "n">> >>}
+                << <<"amenity", "cafe">> >>, << <<"source", "s">>, <<"name", "n">> >>,
+                << <<"fixme", "">> >>, << <<"source", "s">>, <<"highway", "">> >>}
 WayTagMenu == {TNone, << <<"source", "s">> >>, << <<"highway", "residential">> >>, << <<"building", "yes">> >>,
                << <<"building", "yes">>, <<"area", "no">> >>, << <<"highway", "pedestrian">>, <<"area", "yes">> >>,
-               << <<"natural", "coastline">>, <<"name", "w">> >>}
+               << <<"natural", "coastline">>, <<"name", "w">> >>,
+               << <<"highway", "">> >>, << <<"created_by", "x">>, <<"fixme", "">> >>, << <<"building", "">>, <<"source", "">> >>}
 RelExtraMenu == {TNone, << <<"name", "r">> >>, << <<"building", "yes">> >>, << <<"source", "s">> >>}
 RelKinds == {"route", "multipolygon", "boundary", "site", ""}
 RefMenu == {<<1, 2>>, <<1, 2, 3>>, <<1, 2, 3, 1>>, <<1, 3, 2, 1>>, <<2, 3>>, <<3, 2>>, <<3, 1>>, <<1>>, <<9>>,
@@ -70,7 +74,8 @@ F2 ==
               ELSE {<<"y", "y", "y">>, <<"n", "0", "y">>}
       nodes(p) == FlattenSeq([i \in 1 .. 3 |-> IF p[i] = "y" THEN << Plain(i) >> ELSE IF p[i] = "0" THEN << N(i, FALSE, TNone, MVer) >> ELSE << >>])
   IN {DS("F2", nodes(p), << W(1, refs, ann, tags, IF ann THEN MPart ELSE M0) >>, << >>) :
-         p \in pres, refs \in RefMenu, tags \in WayTagMenu, ann \in BOOLEAN}
+         p \in pres, refs \in RefMenu, ann \in BOOLEAN,
+         tags \in IF Thorough THEN WayTagMenu ELSE WayTagMenu \ {<< <<"source", "s">> >>, << <<"building", "">>, <<"source", "">> >>}}
 
 \* F3 - routes: two ways in every relative position, member lists incl. missing / repeated / single
 RoutePairs == {<< <<1, 2>>, <<2, 3>> >>, << <<1, 2>>, <<3, 2>> >>, << <<2, 1>>, <<2, 3>> >>, << <<2, 1>>, <<3, 2>> >>,
@@ -85,7 +90,8 @@ F3 ==
       << W(1, pr[1], ann, tg[1], M0), W(2, pr[2], FALSE, tg[2], MTime) >>,
       << R(1, "route", ex, mem, MFull) >>) :
      pr \in RoutePairs, mem \in RouteMembers, ann \in BOOLEAN,
-     tg \in {<<TNone, TNone>>, << << <<"source", "s">> >>, << <<"building", "yes">> >> >>} \cup
+     tg \in {<<TNone, TNone>>, << << <<"source", "s">> >>, << <<"building", "yes">> >> >>,
+             << << <<"highway", "">> >>, << <<"created_by", "x">>, <<"fixme", "">> >> >>} \cup
             (IF Thorough THEN {<< << <<"highway", "residential">> >>, TNone >>} ELSE {}),
      ex \in IF Thorough THEN {TNone, << <<"name", "r">> >>} ELSE {TNone}}
 
@@ -94,16 +100,25 @@ PolyMembers == {<< M("way", 1, "outer") >>, << M("way", 1, "outer"), M("way", 2,
                 << M("way", 1, "outer"), M("way", 7, "outer") >>, << M("way", 1, "outer"), M("way", 2, "outer") >>,
                 << M("way", 1, "inner"), M("way", 2, "inner") >>, << M("way", 1, "") >>,
                 << M("way", 7, "outer"), M("way", 1, "inner") >>, << M("way", 1, "outer"), M("node", 1, "admin_centre") >>}
-F4a ==
+TFix == << <<"fixme", "">> >>                      \* an interesting key with an empty value
+W2Plain == << W(2, <<1, 2, 3, 1>>, FALSE, TNone, M0) >>
+W2Named == << W(2, <<2, 3>>, TRUE, << <<"name", "i">> >>, M0) >>
+W2Fix   == << W(2, <<1, 2, 3, 1>>, FALSE, << <<"source", "s">>, <<"fixme", "">> >>, M0) >>
+F4of(refsS, t1S, w2S, kindS, exS) ==
   {DS("F4", << Plain(1), Plain(2), Plain(3) >>,
       << W(1, refs, FALSE, t1, MVer) >> \o w2,
       << R(1, kind, ex, mem, MTime) >>) :
-     refs \in {<<1, 2, 3, 1>>, <<1, 3, 2, 1>>, <<1, 2, 3>>} \cup (IF Thorough THEN {<<1, 2, 9, 1>>} ELSE {}),
-     t1 \in {TNone, << <<"building", "yes">> >>, << <<"name", "w">> >>},
-     w2 \in {<< W(2, <<1, 2, 3, 1>>, FALSE, TNone, M0) >>, << W(2, <<2, 3>>, TRUE, << <<"name", "i">> >>, M0) >>} \cup
-            (IF Thorough THEN {<< >>} ELSE {}),
-     kind \in IF Thorough THEN {"multipolygon", "boundary"} ELSE {"multipolygon"},
-     ex \in IF Thorough THEN RelExtraMenu ELSE RelExtraMenu \ {<< <<"source", "s">> >>}, mem \in PolyMembers}
+     refs \in refsS, t1 \in t1S, w2 \in w2S, kind \in kindS, ex \in exS, mem \in PolyMembers}
+F4a ==
+  IF Thorough
+  THEN F4of({<<1, 2, 3, 1>>, <<1, 3, 2, 1>>, <<1, 2, 3>>, <<1, 2, 9, 1>>},
+            {TNone, << <<"building", "yes">> >>, << <<"name", "w">> >>, TFix},
+            {W2Plain, W2Named, W2Fix, << >>}, {"multipolygon", "boundary"}, RelExtraMenu)
+  ELSE F4of({<<1, 2, 3, 1>>, <<1, 3, 2, 1>>, <<1, 2, 3>>},
+            {TNone, << <<"building", "yes">> >>, << <<"name", "w">> >>},
+            {W2Plain, W2Named}, {"multipolygon"}, RelExtraMenu \ {<< <<"source", "s">> >>})
+       \cup F4of({<<1, 2, 3, 1>>}, {TFix}, {W2Plain, W2Fix}, {"multipolygon"}, {TNone, << <<"name", "r">> >>})
+       \cup F4of({<<1, 3, 2, 1>>}, {TNone, << <<"building", "yes">> >>}, {W2Fix}, {"multipolygon"}, {TNone, << <<"building", "yes">> >>})
 F4b ==
   {DS("F4", << Plain(1), Plain(2), Plain(3) >>,
       << W(1, <<1, 2, 3, 1>>, FALSE, t1, M0), W(2, <<1, 3, 2, 1>>, FALSE, TNone, M0) >>,
@@ -134,7 +149,30 @@ F6 ==
       << R(1, "route", TNone, << M("way", 1, "") >>, mr) >>) :
      mn \in MetaMenu, mw \in IF Thorough THEN MetaMenu ELSE {M0, MFull, MTime}, mr \in IF Thorough THEN MetaMenu ELSE {M0, MFull, MPart}}
 
-Families == F1 \cup F2 \cup F3 \cup F4a \cup F4b \cup F5 \cup F6
+\* F7 - real-size routes: n disjoint sections, each made of a first way [a, b] and a later member that
+\* continues it ([b, c], or listed the other way round [c, b]); members out of travel order (all first
+\* ways in some permutation, then the continuations in another), or in travel order; untagged or tagged.
+\* Section i uses nodes 3i-2, 3i-1, 3i and ways 2i-1, 2i; all nodes on distinct grid points.
+GridXY(k) == <<1 + ((k - 1) % 10), 1 + ((k - 1) \div 10)>>
+Perm(kind, n, i) == CASE kind = "id" -> i [] kind = "rev" -> n + 1 - i [] kind = "mul" -> ((i * 7) % n) + 1   \* n coprime with 7
+BigRoute(n, ord, tags, contRev) ==
+  LET way(j) == LET i == (j + 1) \div 2 IN
+                IF j % 2 = 1 THEN W(j, <<3 * i - 2, 3 * i - 1>>, FALSE, tags, M0)
+                ELSE W(j, IF contRev THEN <<3 * i, 3 * i - 1>> ELSE <<3 * i - 1, 3 * i>>, FALSE, tags, IF i = 1 THEN MVer ELSE M0)
+      firsts == [i \in 1 .. n |-> M("way", 2 * Perm(ord[1], n, i) - 1, "")]
+      conts  == [i \in 1 .. n |-> M("way", 2 * Perm(ord[2], n, i), IF i = 2 THEN "forward" ELSE "")]
+      members == IF ord[1] = "travel" THEN [j \in 1 .. 2 * n |-> M("way", j, "")] ELSE firsts \o conts
+  IN DS("F7", [k \in 1 .. 3 * n |-> [id |-> k, xy |-> GridXY(k), tags |-> TNone, meta |-> M0]],
+        [j \in 1 .. 2 * n |-> way(j)],
+        << R(1, "route", << <<"ref", "7">> >>, members, MVer) >>)
+F7 ==
+  {BigRoute(n, ord, tags, contRev) :
+     n \in IF Thorough THEN {2, 3, 10, 11, 12, 13, 20, 25, 30} ELSE {3, 11, 12, 25},
+     ord \in {<<"id", "id">>, <<"mul", "rev">>, <<"rev", "mul">>, <<"travel", "travel">>},
+     tags \in {TNone, << <<"highway", "residential">> >>},
+     contRev \in BOOLEAN}
+
+Families == F1 \cup F2 \cup F3 \cup F4a \cup F4b \cup F5 \cup F6 \cup F7
 
 \* the full product space, sampled
 MemberAll == [t : {"node"}, ref : {1, 2, 3, 9}, role : {"", "stop"}] \cup
